@@ -137,6 +137,11 @@ def pick_model(policy, M, previous, key_pos, call_no):
 # --------------------------------------------------------------------------------------
 
 
+class PeerCrash(RuntimeError):
+    """Injected fault: the solver behind the seam dies during a call (after possibly having written
+    part of its result).  The caller may see this exception; it must not see a made-up answer."""
+
+
 class SimContext:
     """Per-run shared state of the stub backends (recorder + configuration)."""
 
@@ -151,9 +156,30 @@ class SimContext:
         self.product_cap = product_cap
         self.instances = 0
         self.last_models = None
+        self.fault_in = None  # the fault_in-th backend call from now on dies (None: disarmed)
+        self.fault_torn = 0  # ... after having written this many sol fields
+        self.faults_fired = 0
 
     def reset_calls(self):
         self.calls = 0
+
+    def arm_fault(self, n, torn=0):
+        self.fault_in = n
+        self.fault_torn = torn
+
+    def disarm_fault(self):
+        self.fault_in = None
+
+    def tick_fault(self):
+        """True when the call being entered is the one that dies."""
+        if self.fault_in is None:
+            return False
+        self.fault_in -= 1
+        if self.fault_in > 0:
+            return False
+        self.fault_in = None
+        self.faults_fired += 1
+        return True
 
 
 def make_sim_backend(ctx: SimContext, E):
@@ -202,12 +228,24 @@ def make_sim_backend(ctx: SimContext, E):
                 self._filtered = len(self.constraints)
             return self._M
 
-        def _write(self, values):
+        def _write(self, values, dying=False):
             order = list(range(len(self.variables)))
             if ctx.quirks.get("write_order") == "rev":
                 order.reverse()
+            if dying:
+                order = order[: ctx.fault_torn]
             for p in order:
                 self.variables[p].sol = values[p]
+
+        def _die(self, values):
+            # injected crash: a torn write of the result, then the exception
+            if values is not None:
+                self._write(values, dying=True)
+            ctx.result.hit("fault:backend_crash_mid_call")
+            if values is not None and ctx.fault_torn:
+                ctx.result.hit("fault:torn_result_write")
+            ctx.result.log("backend", "crash", ctx.fault_torn)
+            raise PeerCrash("injected: the backend died during the call")
 
         def solve(self):
             ctx.calls += 1
@@ -215,8 +253,11 @@ def make_sim_backend(ctx: SimContext, E):
             ctx.result.steps += 1
             if ctx.cap is not None and ctx.calls > ctx.cap:
                 raise NoReturnWithinBound(f"backend solve() called {ctx.calls} times, bound {ctx.cap}")
+            dying = ctx.tick_fault()
             M = self._models()
             ctx.last_models = len(M)
+            if dying:
+                self._die(list(pick_model(ctx.policy, M, self.previous, self.key_pos, ctx.calls)) if M else None)
             if not M:
                 if ctx.quirks.get("clear_on_unsat"):
                     self._write([None] * len(self.variables))
@@ -238,8 +279,11 @@ def make_sim_backend(ctx: SimContext, E):
                 raise NotImplementedError
             ctx.result.steps += 1
             ctx.total_calls += 1
+            dying = ctx.tick_fault()
             M = self._models()
             ctx.result.hit("native_deduction_call")
+            if dying:
+                self._die(list(M[0]) if M else None)
             if not M:
                 if ctx.quirks.get("clear_on_unsat"):
                     self._write([None] * len(self.variables))
@@ -631,12 +675,22 @@ class SugarPeer:
         self.cap = cap
         self.received = []  # (entry point, text, SugarProgram | ProtocolError)
         self.previous = None
+        self.fault_in = None  # the fault_in-th call from now on dies without a reply
+        self.faults_fired = 0
 
     def respond(self, text, entry):
         self.calls += 1
         self.result.steps += 1
         if self.cap is not None and self.calls > self.cap:
             raise NoReturnWithinBound(f"external solver called {self.calls} times, bound {self.cap}")
+        if self.fault_in is not None:
+            self.fault_in -= 1
+            if self.fault_in <= 0:
+                self.fault_in = None
+                self.faults_fired += 1
+                self.result.hit("fault:external_solver_died_without_reply")
+                self.result.log("peer", entry, "crash")
+                raise PeerCrash("injected: the external solver died without a reply")
         try:
             prog = SugarProgram(text)
         except ProtocolError as e:
@@ -886,6 +940,20 @@ def counted_z3(cap_holder):
         cap = cap_holder.get("cap")
         if cap is not None and cap_holder["calls"] > cap:
             raise NoReturnWithinBound(f"z3 check() called {cap_holder['calls']} times, bound {cap}")
+        if cap_holder.get("fault_in") is not None:
+            cap_holder["fault_in"] -= 1
+            if cap_holder["fault_in"] <= 0:
+                cap_holder["fault_in"] = None
+                cap_holder["faults_fired"] = cap_holder.get("faults_fired", 0) + 1
+                if cap_holder.get("fault_kind") == "exception":
+                    # the solver is interrupted: z3 raises
+                    if cap_holder.get("result") is not None:
+                        cap_holder["result"].hit("fault:z3_check_raises")
+                    raise z3.Z3Exception("canceled")
+                # the solver gives up: check() answers unknown (no model is available then)
+                if cap_holder.get("result") is not None:
+                    cap_holder["result"].hit("fault:z3_check_answers_unknown")
+                return z3.unknown
         return orig(self, *a, **kw)
 
     z3.Solver.check = check
